@@ -487,7 +487,17 @@ Definition info_eqb (a b : info) : bool :=
     exchanged) or a direct call of the public Info.accepts *)
 Inductive c07_case : Type :=
 | CExchange (oi : option info) (static : bool) (cs : list consumer)
-| CAccepts (self inc : info) (downstream : bool).
+| CAccepts (self inc : info) (downstream : bool)
+| CRelay (fwd : bool) (oi : info) (cs1 cs2 : list consumer) (rchain : list adapter) (rinfo : info)
+         (ovu : option unit_t) (ovm : meta_t) (far : list consumer).
+(** [CRelay]: a component between two links whose ConnectHelper composes one slot's info from the other
+    slot's exchanged info by a complete transfer rule followed by FromValue overrides
+    (tools/connect_helper.py _apply_rules 192-213, _transfer_fields 553-567).
+    [fwd = true]: out_info_rules = [FromInput(in); FromValue...]: the relay's input (declared info [rinfo],
+    behind [rchain]) is one of the producer's consumers (after [cs1], before [cs2]); the relay's output info
+    is composed from the input's exchanged info and then exchanged with [far].
+    [fwd = false]: in_info_rules = [FromOutput(out); FromValue...]: the relay's output (declared info [rinfo])
+    exchanges with [far] first; the relay's input request is composed from the output's exchanged info. *)
 (** observation: outcome (0 ok, 1 MetaDataError, 2 NoDataError, 3 other; for CAccepts 10 True, 11 False,
     3 exception), input infos (on success), output info afterwards (on success), number of exchanges the
     output answered, data gate open afterwards *)
@@ -498,6 +508,45 @@ Record c07_obs : Type := mkObs {
   ob_exchanged : nat;
   ob_gate : bool
 }.
+(** Info(time=None, grid=None), complete transfer (time, grid, copy of meta incl. units; the mask is not
+    transferred: default FLEX), then the FromValue rules *)
+Definition apply_rules (src : info) (ovu : option unit_t) (ovm : meta_t) : info :=
+  mkI (i_time src) (i_grid src) (Some MFlex) (orelse ovu (i_units src)) (merge_meta (i_meta src) ovm).
+
+Definition outcome_code {A : Type} (r : xres A) : Z :=
+  match r with XOk _ => 0 | XMeta => 1 | XNoData => 2 | XOther => 3 end.
+Definition fail_obs (code : Z) : c07_obs := mkObs code [] None 0 false.
+
+Definition relay_model (fwd : bool) (oi : info) (cs1 cs2 : list consumer) (rchain : list adapter) (rinfo : info)
+           (ovu : option unit_t) (ovm : meta_t) (far : list consumer) : c07_obs :=
+  let n1 := S (length cs1 + length cs2) in
+  if fwd then
+    let '(o1, r1) := run_all (init_out (Some oi) false n1) (cs1 ++ mkC rchain rinfo :: cs2) in
+    match r1 with
+    | XOk l1 =>
+        match nth_error l1 (length cs1) with
+        | Some ii =>
+            let '(o2, r2) := run_all (init_out (Some (apply_rules ii ovu ovm)) false (length far)) far in
+            match r2, o_info o2 with
+            | XOk l2, Some ro => mkObs 0 (l1 ++ l2 ++ [ro]) (o_info o1) (o_exch o1) (data_gate_open o1)
+            | _, _ => fail_obs (outcome_code r2)
+            end
+        | None => fail_obs 3
+        end
+    | _ => fail_obs (outcome_code r1)
+    end
+  else
+    let '(o2, r2) := run_all (init_out (Some rinfo) false (length far)) far in
+    match r2, o_info o2 with
+    | XOk l2, Some ro =>
+        let '(o1, r1) := run_all (init_out (Some oi) false n1) (cs1 ++ mkC rchain (apply_rules ro ovu ovm) :: cs2) in
+        match r1 with
+        | XOk l1 => mkObs 0 (l1 ++ l2 ++ [ro]) (o_info o1) (o_exch o1) (data_gate_open o1)
+        | _ => fail_obs (outcome_code r1)
+        end
+    | _, _ => fail_obs (outcome_code r2)
+    end.
+
 Definition c07_model (c : c07_case) : c07_obs :=
   match c with
   | CExchange oi st cs =>
@@ -514,6 +563,7 @@ Definition c07_model (c : c07_case) : c07_obs :=
       | XOk false => mkObs 11 [] None 0 false
       | _ => mkObs 3 [] None 0 false
       end
+  | CRelay fwd oi cs1 cs2 rchain rinfo ovu ovm far => relay_model fwd oi cs1 cs2 rchain rinfo ovu ovm far
   end.
 Definition c07_obs_eqb (a b : c07_obs) : bool :=
   (ob_outcome a =? ob_outcome b)
